@@ -140,9 +140,20 @@ func concOp(name string, g int) string {
 		rawi, e5 := m.JsonIndentWriterRaw(&w2, "", " ")
 		m.JsonWriter(&w2)
 		m.Json()
-		return fmt.Sprint(string(x), e1, string(xi), e2, string(j), e3, string(raw), e4, string(rawi), e5, w1.String())
+		// a private document pretty-printed from its text (a decode and an encode in one call), entity references in it
+		bdoc := []byte(fmt.Sprintf(`<cat g="%d&amp;">`, g) + strings.Repeat(`<i n="1">R&amp;D &lt;x&gt;</i>`, 60) + `</cat>`)
+		bx, e6 := mxj.BeautifyXml(bdoc, "", " ")
+		return fmt.Sprint(string(x), e1, string(xi), e2, string(j), e3, string(raw), e4, string(rawi), e5, w1.String(), len(bx), fnv32(bx), e6)
 	}
 	panic("conc: unknown operation " + name)
+}
+
+func fnv32(b []byte) uint32 {
+	h := uint32(2166136261)
+	for _, c := range b {
+		h = (h ^ uint32(c)) * 16777619
+	}
+	return h
 }
 
 // gate scheduler
@@ -531,7 +542,8 @@ func exoticMap() mxj.Map {
 			"-id": 7, "i64": int64(-2), "u64": uint64(3), "n": json.Number("1.50"), "f32like": 2.5,
 			"ss": []string{"a", "b<"}, "lm": []map[string]interface{}{{"k": 1}, {"k": "v", "-a": true}},
 			"m":     mxj.Map{"x": []interface{}{1, "two", nil, map[string]interface{}{"#text": "t", "-q": "r"}}},
-			"#text": "mixed & text", "e": []interface{}{}, "nil": nil}}
+			"#text": "mixed & text", "e": []interface{}{}, "nil": nil,
+			"rec": []interface{}{map[string]interface{}{"active": "true", "rate": "3.50", "id": "7"}, map[string]interface{}{"active": "false", "rate": "x", "id": "8"}}}}
 }
 
 func replayPure(line []byte, a *Acc) {
@@ -600,6 +612,7 @@ func pureOn(mv mxj.Map, a *Acc, l interface{}, jsonShaped bool) {
 		}
 	}
 	condSet := map[string]bool{"a:x": true, "!b:*": true}
+	typedConds := map[string]bool{}
 	var walk func(v interface{})
 	walk = func(v interface{}) {
 		switch x := v.(type) {
@@ -609,6 +622,18 @@ func pureOn(mv mxj.Map, a *Acc, l interface{}, jsonShaped bool) {
 				case string:
 					condSet[k+":"+sv] = true
 					condSet["!"+k+":"+sv] = true
+					// a string member that READS like a boolean or a number, asked for with a typed sub-key (the member stays the string it is)
+					if _, err := strconv.ParseBool(sv); err == nil {
+						typedConds[k+":"+sv+":bool"] = true
+						typedConds["!"+k+":"+sv+":bool"] = true
+					}
+					if _, err := strconv.ParseFloat(sv, 64); err == nil {
+						typedConds[k+":"+sv+":num"] = true
+						typedConds["!"+k+":"+sv+":num"] = true
+					}
+				case int, int64, uint64, json.Number:
+					typedConds[fmt.Sprintf("%s:%v:num", k, sv)] = true
+					typedConds[fmt.Sprintf("!%s:%v:num", k, sv)] = true
 				case bool:
 					condSet[fmt.Sprintf("%s:%v:bool", k, sv)] = true
 				case float64:
@@ -626,6 +651,11 @@ func pureOn(mv mxj.Map, a *Acc, l interface{}, jsonShaped bool) {
 	var conds []string
 	for c := range condSet {
 		if !strings.Contains(strings.TrimPrefix(c, "!"), "::") && len(conds) < 12 {
+			conds = append(conds, c)
+		}
+	}
+	for c := range typedConds {
+		if !strings.Contains(strings.TrimPrefix(c, "!"), "::") && len(typedConds) <= 16 {
 			conds = append(conds, c)
 		}
 	}
